@@ -9,10 +9,10 @@ Over `Sop.Replication` (the model of the replication tracker, `fileIO.replicate`
 * `C27_replica` — with no fault ever recorded and the passive folder writable, every history of store creations,
   commits (arbitrary well-formed handle sets), `RemoveBtree`s and process restarts keeps the passive folder equal to
   the active one as maps (store list, store infos, registry handle images).
-* isolation, commit time: `handleFailed_content` (recording a failure changes no folder's list / infos / registry),
-  `handleFailed_records` (it sets `FailedToReplicate` in the process-wide status), and
-  `C27_failed_commit_no_passive_write` — once recorded, commits write nothing to the passive folder.
-  `Statement_C27_isolation_commit` is the combined statement (stated, not proved as one theorem).
+* `C27_isolation_commit` (= `Statement_C27_isolation_commit`) — a passive-side fault during a commit's replication
+  leaves the commit outcome and the active folder exactly as without the fault, leaves the passive folder untouched and
+  records `FailedToReplicate`; `C27_failed_commit_no_passive_write` — once recorded, commits write nothing to the
+  passive folder. Ingredients: `handleFailed_content`, `handleFailed_records`, `commitT_active`, `commitT_blocked`.
   The full isolation statement is **false** for catalogue operations: `isolation_catalogue_counterexample` (store
   creation still writes the passive folder after the failure was recorded) and `isolation_create_counterexample`
   (with the passive drive unreachable a store creation fails and is rolled back on the active side).
@@ -286,8 +286,7 @@ theorem handleFailed_records (s : State) (rt : Flags) (hrt : rt.failed = false) 
       refine ⟨{ gf with failed := true }, ?_, rfl⟩
       rw [(push_sides _).2.2, writeStatus_g]
 
-/-- The full commit-time isolation statement (not proved as one theorem; its ingredients are `handleFailed_content`,
-`handleFailed_records` and `C27_failed_commit_no_passive_write`; the correspondence run exercises it on every fault). -/
+/-- The commit-time isolation statement (proved below as `C27_isolation_commit`). -/
 def Statement_C27_isolation_commit : Prop :=
   ∀ (s : State) (rt : Flags) (n : String) (c : Option Int) (ro ad up : List (RKey × String)) (rm : List RKey),
     rt.failed = false → passiveBlocked s.broken n = true → (pull s).g.isSome = true →
@@ -373,5 +372,116 @@ theorem failover_forgotten_counterexample :
 theorem failover_seen_when_never_failed :
     (readHome (cold (run base [.failover]))).toggler = false := by
   decide
+
+/-! ## commit-time isolation, assembled -/
+
+theorem active_logs (x : State) (rt : Flags) (l : List Log) : active { x with logs := l } rt = active x rt := by
+  unfold active side; cases rt.toggler <;> rfl
+
+theorem passive_logs (x : State) (rt : Flags) (l : List Log) : passive { x with logs := l } rt = passive x rt := by
+  unfold passive side; cases rt.toggler <;> rfl
+
+theorem active_setActive (s : State) (rt : Flags) (x : Side) : active (setActive s rt x) rt = x := by
+  unfold active setActive; exact side_setSide_same s rt.toggler x
+
+theorem active_setPassive (s : State) (rt : Flags) (x : Side) : active (setPassive s rt x) rt = active s rt := by
+  unfold active setPassive; cases rt.toggler <;> simp [side, setSide]
+
+theorem setActive_fields (s : State) (rt : Flags) (x : Side) :
+    (setActive s rt x).broken = s.broken ∧ (setActive s rt x).g = s.g ∧ (setActive s rt x).l2 = s.l2 := by
+  unfold setActive setSide; cases rt.toggler <;> simp
+
+theorem setPassive_fields (s : State) (rt : Flags) (x : Side) :
+    (setPassive s rt x).broken = s.broken ∧ (setPassive s rt x).g = s.g ∧ (setPassive s rt x).l2 = s.l2 := by
+  unfold setPassive setSide; cases rt.toggler <;> simp
+
+theorem pull_g_congr {s1 s2 : State} (hg : s1.g = s2.g) (hl : s1.l2 = s2.l2) : (pull s1).g = (pull s2).g := by
+  unfold pull; rw [hl]; cases s2.l2 <;> simp [hg]
+
+theorem handleFailed_active (s : State) (rt : Flags) :
+    content (active (handleFailed s rt).1 rt) = content (active s rt) := handleFailed_content s rt rt.toggler
+
+theorem handleFailed_passive (s : State) (rt : Flags) :
+    content (passive (handleFailed s rt).1 rt) = content (passive s rt) := handleFailed_content s rt (!rt.toggler)
+
+/-- the active folder after a commit's own writes -/
+def newActive (a : Side) (n : String) (c : Option Int) (i : Info) (ro ad up : List (RKey × String)) (rm : List RKey) : Side :=
+  { a with
+    infos := if c.isSome then put n (match c with | some c => { i with count := c } | none => i) a.infos else a.infos,
+    reg := regApply ro ad up rm a.reg }
+
+/-- whatever happens on the passive side, a commit answers "ok" and leaves the active folder with its own writes -/
+theorem commitT_active (s : State) (rt : Flags) (n c ro ad up rm) (i : Info) (hget : get n (active s rt).infos = some i) :
+    (commitT s rt n c ro ad up rm).2 = "ok" ∧
+    content (active (commitT s rt n c ro ad up rm).1 rt) = content (newActive (active s rt) n c i ro ad up rm) := by
+  unfold commitT newActive
+  simp only [hget]
+  refine ⟨by first | trivial | rfl, ?_⟩
+  cases c <;> cases hl : rt.logc <;> cases hf : rt.failed <;>
+    simp only [Bool.false_eq_true, ↓reduceIte, Option.isSome_none, Option.isSome_some]
+  all_goals first
+    | (rw [active_setActive] <;> rfl)
+    | (rw [active_logs, active_setActive] <;> rfl)
+    | (split
+       · first
+         | (rw [handleFailed_active, active_setActive] <;> rfl)
+         | (rw [active_logs, handleFailed_active, active_setActive] <;> rfl)
+       · split
+         · first
+           | (rw [active_setPassive, active_setActive] <;> rfl)
+           | (rw [active_logs, active_setPassive, active_setActive] <;> rfl)
+         · first
+           | (rw [handleFailed_active, active_setPassive, active_setActive] <;> rfl)
+           | (rw [active_logs, handleFailed_active, active_setPassive, active_setActive] <;> rfl))
+
+theorem setActive_broken (s : State) (rt : Flags) (x : Side) : (setActive s rt x).broken = s.broken :=
+  (setActive_fields s rt x).1
+
+/-- a commit of a tracker that is not failed, with the passive store folder unwritable: the passive folder keeps its
+content and the state's process-wide status is the one `handleFailed` leaves -/
+theorem commitT_blocked (s : State) (rt : Flags) (n c ro ad up rm) (i : Info) (hget : get n (active s rt).infos = some i)
+    (hrt : rt.failed = false) (hb : passiveBlocked s.broken n = true) :
+    content (passive (commitT s rt n c ro ad up rm).1 rt) = content (passive s rt) ∧
+    (commitT s rt n c ro ad up rm).1.g = (handleFailed (setActive s rt (newActive (active s rt) n c i ro ad up rm)) rt).1.g := by
+  unfold commitT newActive
+  simp only [hget, hrt, Bool.false_eq_true, ↓reduceIte, setActive_broken, hb]
+  cases c <;> cases hl : rt.logc <;>
+    simp only [Bool.false_eq_true, ↓reduceIte, Option.isSome_none, Option.isSome_some]
+  all_goals
+    refine ⟨?_, by first | rfl | trivial⟩
+    first
+    | (rw [handleFailed_passive, passive_setActive] <;> rfl)
+    | (rw [passive_logs, handleFailed_passive, passive_setActive] <;> rfl)
+
+/-- **C27_isolation_commit.** A transaction whose tracker is not failed commits while the passive store folder (or
+drive) is unwritable: the commit answers what it answers without the fault, the active folder's content is what it is
+without the fault, the passive folder's content does not change, and the failure is recorded in the process-wide
+status. -/
+theorem C27_isolation_commit : Statement_C27_isolation_commit := by
+  intro s rt n c ro ad up rm hrt hb hg faulty clean
+  have hact : active { s with broken := Broken.none } rt = active s rt := by unfold active side; cases rt.toggler <;> rfl
+  cases hget : get n (active s rt).infos with
+  | none =>
+    have e1 : faulty = (s, "bad-op") := by
+      show commitT s rt n c ro ad up rm = _
+      unfold commitT; simp only [hget]
+    have e2 : clean = ({ s with broken := Broken.none }, "bad-op") := by
+      show commitT { s with broken := Broken.none } rt n c ro ad up rm = _
+      unfold commitT; simp only [hact, hget]
+    rw [e1, e2]
+    refine ⟨rfl, ?_, rfl, ?_⟩
+    · show content (active s rt) = content (active { s with broken := Broken.none } rt); rw [hact]
+    · intro h; simp at h
+  | some i =>
+    have hF := commitT_active s rt n c ro ad up rm i hget
+    have hC := commitT_active { s with broken := Broken.none } rt n c ro ad up rm i (by rw [hact]; exact hget)
+    rw [hact] at hC
+    have hB := commitT_blocked s rt n c ro ad up rm i hget hrt hb
+    refine ⟨hF.1.trans hC.1.symm, hF.2.trans hC.2.symm, hB.1, ?_⟩
+    intro _
+    have hg' : (pull (setActive s rt (newActive (active s rt) n c i ro ad up rm))).g.isSome = true := by
+      rw [pull_g_congr (setActive_fields s rt _).2.1 (setActive_fields s rt _).2.2]; exact hg
+    obtain ⟨f, hf, hff⟩ := handleFailed_records _ rt hrt hg'
+    exact ⟨f, by rw [show faulty.1.g = _ from hB.2]; exact hf, hff⟩
 
 end Sop.C27
